@@ -537,7 +537,7 @@ func farDeadline(t *testing.T, idx int64, r *rand.Rand) {
 // caller's return for at most 5 s; only a caller found blocked on a mutex inside the limiter at that point is a
 // violation, anything else is inconclusive.
 func releaseInProgress(idx int64, r *rand.Rand) {
-	family := []string{"blocking-timeout0", "blocking-timeoutT", "deadline"}[r.IntN(3)]
+	family := []string{"blocking-timeout0", "blocking-timeoutT", "deadline", "queue-evict", "queue-timeout"}[r.IntN(5)]
 	dl, err := limiter.NewDefaultLimiter(limit.NewFixedLimit("c13", 1, nil), 1e9, 1e9, 1e5, 100, strategy.NewSimpleStrategy(1), limit.NoopLimitLogger{}, core.EmptyMetricRegistryInstance)
 	if err != nil {
 		panic(err)
@@ -560,30 +560,43 @@ func releaseInProgress(idx int64, r *rand.Rand) {
 		lim = limiter.NewBlockingLimiter(gate, 0, nil)
 	case "blocking-timeoutT":
 		lim = limiter.NewBlockingLimiter(gate, time.Hour, nil)
+	case "queue-evict": // bounded by its context (eviction on, backlog time-out disabled)
+		lim = limiter.NewQueueBlockingLimiterFromConfig(gate, limiter.QueueLimiterConfig{Ordering: []limiter.QueueOrdering{limiter.OrderingFIFO, limiter.OrderingLIFO}[r.IntN(2)], MaxBacklogTimeout: -1, BacklogEvictDoneCtx: true})
+	case "queue-timeout": // bounded by a 20 ms backlog time-out
+		lim = limiter.NewQueueBlockingLimiterFromConfig(gate, limiter.QueueLimiterConfig{Ordering: []limiter.QueueOrdering{limiter.OrderingFIFO, limiter.OrderingLIFO}[r.IntN(2)], MaxBacklogTimeout: 20 * time.Millisecond})
 	default:
 		lim = limiter.NewDeadlineLimiter(gate, time.Now().Add(30*time.Millisecond), nil)
 	}
+	queue := strings.HasPrefix(family, "queue")
 	holder, ok := lim.Acquire(context.Background())
 	if !ok {
 		rt.Inconclusive("C13 release-in-progress: first unit refused")
 		return
 	}
-	armed.Store(true)
 	relDone := make(chan struct{})
-	go func() { holder.OnSuccess(); close(relDone) }()
-	<-inRelease
 	ctx, cancel := context.WithCancel(context.Background())
 	var gotOK bool
-	go func() {
+	caller := func() {
 		l, ok := lim.Acquire(ctx)
 		gotOK = ok
 		if l != nil {
 			l.OnIgnore()
 		}
 		close(callerDone)
-	}()
+	}
+	if queue {
+		// the caller is already parked in the backlog when the completion begins
+		go caller()
+		time.Sleep(2 * time.Millisecond)
+	}
+	armed.Store(true)
+	go func() { holder.OnSuccess(); close(relDone) }()
+	<-inRelease
+	if !queue {
+		go caller()
+	}
 	time.Sleep(time.Duration(1+r.IntN(3)) * time.Millisecond)
-	if family != "deadline" {
+	if family != "deadline" && family != "queue-timeout" {
 		cancel()
 	}
 	stuck := false
@@ -592,7 +605,14 @@ func releaseInProgress(idx int64, r *rand.Rand) {
 	case <-time.After(4 * time.Second):
 		buf := make([]byte, 1<<20)
 		dump := string(buf[:runtime.Stack(buf, true)])
-		stuck = strings.Contains(dump, "go-concurrency-limits/limiter.subscribe") && strings.Contains(dump, "sync.(*Mutex).Lock")
+		for _, g := range strings.Split(dump, "\n\n") {
+			if (strings.Contains(g, "sync.(*Mutex).Lock") || strings.Contains(g, "sync.(*RWMutex).Lock")) && strings.Contains(g, "go-concurrency-limits/limiter.") && strings.Contains(g, "c13.releaseInProgress") {
+				stuck = true
+			}
+			if strings.Contains(g, "go-concurrency-limits/limiter.subscribe") && strings.Contains(g, "sync.(*Mutex).Lock") {
+				stuck = true
+			}
+		}
 		if !stuck {
 			rt.Inconclusive("C13 release-in-progress: caller did not return in 4 s without being blocked on a limiter mutex")
 		}
@@ -603,7 +623,7 @@ func releaseInProgress(idx int64, r *rand.Rand) {
 	rt.Count("release_in_progress_cases", 1)
 	if stuck {
 		rt.Violation("C13/"+family+"/caller-held-past-its-bound-by-a-completion-in-progress", idx, rt.J{"family": family,
-			"meaning": "the caller's context ended / the deadline passed while another caller's completion was in progress; it was found blocked on a mutex inside the limiter's subscribe and returned only after that completion finished"})
+			"meaning": "the caller's bound (context end, deadline, backlog time-out) passed while another caller's completion was in progress; it was found blocked on a mutex inside the limiter and returned only after that completion finished"})
 		return
 	}
 	if gotOK && family != "deadline" {
